@@ -30,7 +30,7 @@ func init() { register(&Check{ID: "C18", Run: runC18}) }
 var c18Lexemes = []string{
 	"script", "raw", "text", "movement", "mart", "mapscripts", "format", "var", "flag", "defeated", "TRUE", "FALSE", "if", "else", "elif", "do", "while", "break", "continue", "switch", "case", "default", "global", "local", "poryswitch", "const", "value", "moves",
 	"abc", "specialvar", "é1", "_", "5", "-1", "0x1F", "\"s t\"", "ascii\"x\"", "`r w`",
-	"=", "==", "!=", "<", ">=", "&&", "||", "!", "*", ",", ":", "(", ")", "{", "}", "[", "]", "+", "€",
+	"=", "==", "!=", "<", ">=", "&&", "||", "!", "*", ",", ":", "(", ")", "{", "}", "[", "]", "+", "€", "٣", "-٣", "%",
 }
 
 var c18Prefixes = []string{
@@ -41,7 +41,7 @@ var c18Prefixes = []string{
 
 var c18Suffixes = []string{"", " ) { y } }", " }"}
 
-var c18Chars = []string{"a", "é", "€", "�", "\x00", "\"", "`", "\r", "\n", " ", "{", "(", "0", "-", "#", "/", "\\", "=", "&", "|", "*", ":", "x"}
+var c18Chars = []string{"a", "é", "٣", "€", "�", "\x00", "\"", "`", "\r", "\n", " ", "{", "(", "0", "-", "#", "/", "\\", "=", "&", "|", "*", ":", "x"}
 
 // Seeds: well-formed programs that together use every production, as token lists.
 var c18Seeds = []string{
@@ -409,6 +409,7 @@ func runC18(tier string) int {
 	var mu sync.Mutex
 	shapes := map[string]struct{}{}
 	next := 0
+	hangs := 0 // confirmed hangs / worker deaths; the run stops after a few (each costs tens of seconds)
 	var wg sync.WaitGroup
 	// runWorker runs [lo,hi) and returns the index at which it stalled or died (ok=false), if any.
 	runWorker := func(ki int, lo, hi uint64, slow bool) (stalledAt uint64, died bool, stalled bool) {
@@ -533,7 +534,7 @@ func runC18(tier string) int {
 			defer wg.Done()
 			for {
 				mu.Lock()
-				if next >= len(jobs) || r.Expired() {
+				if next >= len(jobs) || r.Expired() || hangs >= 3 {
 					mu.Unlock()
 					return
 				}
@@ -562,6 +563,13 @@ func runC18(tier string) int {
 							what, sig = "the worker process died (fatal runtime error / out of memory)", "C18:fatal"
 						}
 						r.Report(harness.Violation{Sig: sig, Summary: fmt.Sprintf("%s\n  input: %q", what, clip(src, 400)), Replay: map[string]interface{}{"input": src, "problem": what, "space": spaces[j.ki].kind}})
+						mu.Lock()
+						hangs++
+						stop := hangs >= 3
+						mu.Unlock()
+						if stop {
+							return
+						}
 					}
 					lo = at2 + 1
 				}
